@@ -88,7 +88,8 @@ func (d *Disk) shouldFail(op string) (bool, string) {
 	}
 	k := d.Calls
 	d.Calls++
-	if k == d.Plan.K {
+	// K < 0 designates "the fdatasync that follows the meta write" whatever its index
+	if k == d.Plan.K || (d.Plan.K < 0 && op == "fdatasync" && d.MetaWritten) {
 		if d.Veto != nil && d.Veto(op, d.MetaWritten) {
 			return false, ""
 		}
